@@ -216,6 +216,7 @@ pub fn property(tier: Tier) -> Property {
     ];
     for (name, l) in names {
         let mut cfg = MixedCfg::for_lang(*l);
+        cfg.hist.namings = crate::tm::Naming::diverse();
         cfg.max_ops = tier.pick(10, 16);
         let n = if *l == LangId::Core { tier.pick(3000, 60_000) } else { tier.pick(600, 10_000) };
         stages.push(Box::new(Stage {
@@ -231,6 +232,7 @@ pub fn property(tier: Tier) -> Property {
     }
     for (name, l) in [("ops-core-analysis", LangId::Core), ("ops-lambda-analysis", LangId::Lambda), ("ops-arith-analysis", LangId::Arith)] {
         let mut cfg = MixedCfg::for_lang(l);
+        cfg.hist.namings = crate::tm::Naming::diverse();
         cfg.max_ops = tier.pick(10, 16);
         let n = if l == LangId::Core { tier.pick(1500, 30_000) } else { tier.pick(500, 8_000) };
         stages.push(Box::new(Stage {
